@@ -890,18 +890,30 @@ def _counting(Reg):
 
     class CountingLookup(Base):
         n_uncached = 0
+        pending = None      # run once, right after the next uncached computation (a mutation overlapping a lookup)
+
+        def _after(self):
+            p, self.pending = self.pending, None
+            if p is not None:
+                p()
 
         def _uncached_lookup(self, required, provided, name=''):
             self.n_uncached += 1
-            return Base._uncached_lookup(self, required, provided, name)
+            r = Base._uncached_lookup(self, required, provided, name)
+            self._after()
+            return r
 
         def _uncached_lookupAll(self, required, provided):
             self.n_uncached += 1
-            return Base._uncached_lookupAll(self, required, provided)
+            r = Base._uncached_lookupAll(self, required, provided)
+            self._after()
+            return r
 
         def _uncached_subscriptions(self, required, provided):
             self.n_uncached += 1
-            return Base._uncached_subscriptions(self, required, provided)
+            r = Base._uncached_subscriptions(self, required, provided)
+            self._after()
+            return r
 
     class CountingRegistry(Reg):
         LookupClass = CountingLookup
@@ -1145,6 +1157,43 @@ def run_c05(ctx, rng, job):
                     ctx.violation('warm-and-cold-differ-from-model', {'entry': 'lookup', 'registry': q[1], 'required': nm(q[2]),
                                                                       'provided': nm(q[3]), 'name': q[4], 'warm': repr(wa), 'model': repr(exp)})
             nxt.append((q, (ca,)))
+        if rng.random() < 0.25:
+            # a mutation that overlaps a lookup: it happens right after the uncached computation of a never-asked key
+            # has finished and before its answer is stored.  What that call returns is not judged (C11); from the next
+            # call on the key must be answered as by a registry without earlier lookups.
+            q = newq()
+            if q[0] in ('lookup', 'lookup1', 'queryAdapter', 'adapter_hook', 'queryMultiAdapter', 'lookupAll', 'names', 'subscriptions'):
+                ar = len(q[5]) if q[2] is None else len(q[2])
+                rj = rng.choice(w.chain(q[1]) or [q[1]])
+                if q[0] == 'subscriptions':
+                    e = (rj, 'subscribe', (tuple([None] * ar), q[3], w.newval()))
+                else:
+                    prov = q[3] if q[3] is not Interface else rng.choice(w.P)
+                    e = (rj, 'register', (tuple([None] * ar), prov, q[4], w.newval()))
+                ran = []
+
+                def overlap(e=e):
+                    ran.append(1)
+                    ctx.op('overlapping-' + e[1], e[0], *[nm(a) if not isinstance(a, (str, Val)) else repr(a) for a in e[2]])
+                    log.append(e)
+                    apply(w.regs, e)
+                    if e[1] == 'register':
+                        key = (w.norm(e[2][0]), e[2][1], e[2][2])
+                        w.adapters[e[0]].pop(key, None)
+                        w.adapters[e[0]][key] = e[2][3]
+                lk = w.regs[q[1]]._v_lookup
+                lk.pending = overlap
+                ask(w.regs, q)                     # the interrupted call
+                lk.pending = None
+                if ran:
+                    ctx.count('mutations_overlapping_a_lookup')
+                    wa, ca = ask(w.regs, q), ask(cold(), q)
+                    ctx.ev()
+                    if not same(wa, ca):
+                        ctx.violation('warm-differs-from-cold', {
+                            'entry': q[0] + ' (after a %s that overlapped the first lookup of this key)' % e[1], 'registry': q[1],
+                            'provided': nm(q[3]), 'name': q[4], 'warm': repr(wa) if wa is not D else 'default',
+                            'cold': repr(ca) if ca is not D else 'default', 'after_mutation': e[1]})
         seen = (seen + nxt[-4:])[-40:]
         # refresh stored cold answers of re-probed queries
         upd = {id(q): a for q, a in nxt}
@@ -1161,6 +1210,12 @@ def run_c06(ctx, rng, job):
     w = RW(ctx, rng, job['tier'], with_objs=False, maxregs=5, chainy=True)
     big = job['tier'] == 'thorough'
     n = len(w.regs)
+    # same shape, with lookup objects that can run something right after an uncached computation
+    CReg = _counting(w.Reg)
+    shape0 = [[w.index_of(b) for b in r.__bases__] for r in w.regs]
+    w.regs = []
+    for bs in shape0:
+        w.regs.append(CReg(tuple(w.regs[j] for j in bs)))
     # distinguishing registrations in every member
     probes = []
     for ri in range(n):
@@ -1205,6 +1260,21 @@ def run_c06(ctx, rng, job):
                     if w.adapters[rr]:
                         (kreq, kprov, kname) = rng.choice(list(w.adapters[rr]))
                         lreq, lprov, lname = kreq, kprov, kname
+                if rng.random() < 0.08:
+                    # a registration somewhere along the chain lands while this registry is computing its answer for
+                    # the key (right after the uncached walk, before the answer is stored); the call itself is not
+                    # judged, the probes below are
+                    rj = rng.choice(chain)
+                    ran = []
+
+                    def overlap(rj=rj, lreq=lreq, lprov=lprov, lname=lname):
+                        ran.append(1)
+                        w.register(rj, tuple([None] * len(lreq)), lprov if lprov is not Interface else rng.choice(w.P), lname, w.newval())
+                    reg._v_lookup.pending = overlap
+                    reg.lookup(lreq, lprov, lname)
+                    reg._v_lookup.pending = None
+                    if ran:
+                        ctx.count('registrations_overlapping_a_lookup')
                 exp, info = w.m_lookup(ri, lreq, lprov, lname, chain)
                 got = reg.lookup(lreq, lprov, lname)
                 ctx.ev()
